@@ -351,11 +351,11 @@ def evalCase (spec : Bool) (ws : List String) : String :=
       | _, _ => "bad-op"
   | _ => "bad-op"
 
-/-- `JR id kind <R case> # <impl output>`: if the site is `Consistent` for this key and parameters
+/-- `JR id kind n a₁…aₙ <R case> # <impl output>` (`a` = the arguments the key's handler is expected to see): if the site is `Consistent` for this key and parameters
 (the hypothesis of `mapper_dispatch_consistent`, evaluated on the recorded engine answers), the
 implementation must have produced `root ++ u` and run handler `id` with exactly the parameters.
 Answers `1 c` (consistent, implementation agrees), `1 n` (not consistent: nothing claimed), `0 c` (violation). -/
-def judgeR (id : Nat) (kind : String) (ws : List String) (impl : String) : String :=
+def judgeR (id : Nat) (kind : String) (want : List (Option Bytes)) (ws : List String) (impl : String) : String :=
   match sections ws with
   | ("R" :: meth :: root :: nh :: ws) :: tree :: rest =>
     match parseHex meth, parseHex root, nh.toNat? with
@@ -381,8 +381,6 @@ def judgeR (id : Nat) (kind : String) (ws : List String) (impl : String) : Strin
                   | some (cur :: anc) =>
                     let pos' := params.drop kws.length
                     let ov := mkOverrides kws (params.take kws.length)
-                    -- the arguments the handler is expected to see
-                    let want := pos'.map some
                     let args : Option (List (Option Bytes)) :=
                       match getEntry p'.cur rk pos'.length with
                       | .ok (t, _) => match writeTpl t pos' ctx.helpers ov with
@@ -413,12 +411,16 @@ def step (_ : Unit) (line : String) : Unit × String :=
   let ws := words line
   let r : String :=
     match ws with
-    | "JR" :: id :: kind :: rest =>
-      let caseWs := rest.takeWhile (· != "#")
-      let impl := " ".intercalate ((rest.dropWhile (· != "#")).drop 1)
-      match id.toNat? with
-      | some id => judgeR id kind caseWs impl
-      | none => "bad-op"
+    | "JR" :: id :: kind :: n :: rest =>
+      match id.toNat?, n.toNat? with
+      | some id, some n =>
+        let rest' := rest.drop n
+        let caseWs := rest'.takeWhile (· != "#")
+        let impl := " ".intercalate ((rest'.dropWhile (· != "#")).drop 1)
+        match (rest.take n).mapM parseHex with
+        | some want => judgeR id kind (want.map some) caseWs impl
+        | none => "bad-op"
+      | _, _ => "bad-op"
     | "J" :: rest =>
       let caseWs := rest.takeWhile (· != "#")
       let impl := " ".intercalate ((rest.dropWhile (· != "#")).drop 1)
